@@ -11,7 +11,7 @@ import z3
 from .contract import Contract
 from .pyexpr import ExprMixin, PyDictLit
 from .pymatch import MODE_KINDS, MatchMixin, PyPattern
-from .pyvals import (LE_BYTES, LE_VAL, NONE, Exc, IntSeq, NoneVal, PAbs, PyCache, PyCallable, PyConst, PyGen, PyKey, PyList, PyLit, PyMap, PyObj, PyOpt, PyRuleSeq, PyStrDict,
+from .pyvals import (LE_BYTES, LE_VAL, NONE, Exc, IntSeq, NoneVal, PAbs, PyCache, PyComp, PyCallable, PyConst, PyGen, PyKey, PyList, PyLit, PyMap, PyObj, PyOpt, PyRuleSeq, PyStrDict,
                      PyStrSet, PyTuple, StrSeq, Tok, TokSeq, Val, ValSeq, VAL_AXIOMS, clone, fresh, is_bool, is_int, is_seq,
                      is_str, is_tok, is_val, is_z3, tok_fields, truthy)
 from .pyvc import (VC, St, Tr, Unsupported, dedent, eq, is_keyword, is_soft_keyword, join_lines, lift, str_isspace, str_lower,
@@ -248,6 +248,8 @@ class Executor(MatchMixin, ExprMixin):
             return [o]
         if ty.startswith("const:"):
             return [PyConst(ty[6:])]
+        if ty.startswith("oneof["):
+            return [z3.StringVal(t.strip().strip("'")) for t in ty[6:-1].split("|")]
         raise Unsupported(f"type {ty}")
 
     def init_dict(self, cls: str, field: str):
@@ -952,6 +954,8 @@ class Executor(MatchMixin, ExprMixin):
             if f.id in self.spec_funcs and f.id not in st.env:
                 args = [self.eval1(a, st) for a in e.args]
                 return [(st, self.spec_funcs[f.id](self, st, *args))]
+            if self.cur is not None and f.id in self.cur.inline and f.id not in st.env:
+                return self.inline_call(e, st)
             fc = self.function_contract(f.id)
             if fc is not None and f.id not in st.env:
                 def kf(p, vals):
@@ -985,6 +989,85 @@ class Executor(MatchMixin, ExprMixin):
                     kwargs[kname] = kval
             return self.apply(p, fn, args, kwargs, e)
         return self.bind(self.eval_list([f] + list(e.args) + [kw.value for kw in e.keywords], st), k)
+
+    def inline_call(self, e, st):
+        """execute the real body of a module-level helper at its call site (the contract under verification lists it in `inline`)"""
+        fn = next((n for n in self.tree.body if isinstance(n, ast.FunctionDef) and n.name == e.func.id), None)
+        if fn is None:
+            raise Unsupported(f"inline: function {e.func.id} not found at module level")
+        depth = getattr(self, "_inline_depth", 0)
+        if depth > 4:
+            raise Unsupported("inline: nesting too deep (recursive helper?)")
+        pos, kw = [], {}
+        star_seq = None
+        for a in e.args:
+            if isinstance(a, ast.Starred):
+                v = self.eval1(a.value, st)
+                if z3.is_expr(v) and z3.is_seq(v) and len(e.args) == len(pos) + 1 and fn.args.vararg is not None and len(pos) == len(fn.args.posonlyargs + fn.args.args):
+                    star_seq = v          # a sequence of unknown length handed on whole as the callee's *args
+                    continue
+                if not isinstance(v, (PyTuple, PyList)):
+                    raise Unsupported("inline: *args of unknown length")
+                pos.extend(v.items)
+            else:
+                pos.append(self.eval1(a, st))
+        for k in e.keywords:
+            v = self.eval1(k.value, st)
+            if k.arg is None:
+                if not isinstance(v, PyDictLit):
+                    raise Unsupported("inline: **kwargs of unknown keys")
+                kw.update(v.d)
+            else:
+                kw[k.arg] = v
+        a = fn.args
+        names = [x.arg for x in a.posonlyargs + a.args]
+        env = {}
+        for n, v in zip(names, pos):
+            env[n] = v
+        rest = pos[len(names):]
+        if rest and a.vararg is None:
+            raise Unsupported("inline: too many positional arguments")
+        if a.vararg is not None:
+            env[a.vararg.arg] = PyTuple(rest) if star_seq is None else star_seq
+        dflt = dict(zip(names[len(names) - len(a.defaults):], a.defaults))
+        for n in names:
+            if n not in env:
+                if n in kw:
+                    env[n] = kw.pop(n)
+                elif n in dflt:
+                    env[n] = self.eval1(dflt[n], st)
+                else:
+                    raise Unsupported(f"inline: missing argument {n}")
+        for x, d in zip(a.kwonlyargs, a.kw_defaults):
+            env[x.arg] = kw.pop(x.arg) if x.arg in kw else (self.eval1(d, st) if d is not None else None)
+        if a.kwarg is not None:
+            env[a.kwarg.arg] = PyDictLit(kw)
+        elif kw:
+            raise Unsupported(f"inline: unexpected keyword arguments {sorted(kw)}")
+        env["__caller__"] = PyObj("__frame__", st.env)          # travels with the path (cloned consistently when the path forks)
+        saved_cur_ord = self.loop_ordinals
+        loops = sorted((n for n in ast.walk(fn) if isinstance(n, (ast.While, ast.For))), key=lambda n: (n.lineno, n.col_offset))
+        self.loop_ordinals = {**saved_cur_ord, **{id(n): ("inline", fn.name, i) for i, n in enumerate(loops)}}
+        st.env = env
+        self._inline_depth = depth + 1
+        try:
+            results = self.exec_block(fn.body, st)
+        finally:
+            self._inline_depth = depth
+            self.loop_ordinals = saved_cur_ord
+        out = []
+        for p, fl in results:
+            caller = p.env["__caller__"].fields
+            p.env = caller
+            if fl.kind == "raise":
+                out.append((p, fl.value))
+            elif fl.kind == "return":
+                out.append((p, fl.value))
+            elif fl.kind == "normal":
+                out.append((p, NONE))
+            else:
+                raise Unsupported("inline: break/continue escaping a helper")
+        return out
 
     def call_starred(self, e, st):
         """func(*args) where args is the vararg tuple of an uninterpreted callable"""
@@ -1108,6 +1191,9 @@ class Executor(MatchMixin, ExprMixin):
                 return [(st, r)]
             if name == "find":
                 return [(st, z3.IndexOf(v, a[0], 0))]
+            if name == "split" and len(a) == 1 and z3.is_string_value(z3.simplify(v)) and z3.is_string_value(z3.simplify(a[0])):
+                # a concrete text split at a concrete separator (names of runtime functions such as "__xonsh__.env")
+                return [(st, PyList([z3.StringVal(x) for x in z3.simplify(v).as_string().split(z3.simplify(a[0]).as_string())]))]
             if name == "strip" and not a:
                 return [(st, str_strip(v))]
             if name == "rstrip" and len(a) == 1:
@@ -1129,6 +1215,12 @@ class Executor(MatchMixin, ExprMixin):
             if name == "append":
                 v.items.append(args[0])
                 return [(st, NONE)]
+            if name == "pop" and len(args) == 1 and z3.is_int_value(z3.simplify(lift(args[0]))):
+                i = z3.simplify(lift(args[0])).as_long()
+                if not -len(v.items) <= i < len(v.items):
+                    self.vc(st, z3.BoolVal(False), "safety", "pop index out of range", node.lineno)
+                    return [(st, Exc("IndexError", node.lineno))]
+                return [(st, v.items.pop(i))]
             if name == "pop" and not args:
                 if not v.items:
                     self.vc(st, z3.BoolVal(False), "safety", "pop from empty list", node.lineno)
@@ -1400,6 +1492,8 @@ class Executor(MatchMixin, ExprMixin):
                 return [(p, z3.Length(v))]
             if isinstance(v, PyObj) and v.cls == "EPStack":
                 return [(p, v.fields["n"])]
+            if isinstance(v, PyComp):
+                return [(p, v.length)]
             raise Unsupported("len of " + type(v).__name__)
         return self.bind(self.eval(e.args[0], st), k)
 
